@@ -171,6 +171,11 @@ func countersignToBeSigned(abbreviated bool, target any, signProtected cbor.RawM
 		if len(t.Signatures) == 0 {
 			return nil, errors.New("SignMessage has no signatures yet")
 		}
+		for _, sig := range t.Signatures {
+			if sig == nil || len(sig.Signature) == 0 {
+				return nil, errors.New("SignMessage was not signed yet")
+			}
+		}
 		bodyProtected, err = t.Headers.MarshalProtected()
 		if err != nil {
 			return nil, err
